@@ -92,6 +92,16 @@ func TestC06_Bodies(t *testing.T) {
 			ctx1, ctx2 := evalCtx(sc), evalCtx(sc)
 			ctx1.Variables[secret] = gen.ApplyMark(v1, secretMark, placement)
 			ctx2.Variables[secret] = gen.ApplyMark(v2, secretMark, placement)
+			// other variables may carry an unrelated mark (so that two different marks meet where a
+			// block is generated inside another generated block)
+			for _, name := range sc.Names {
+				if name != secret && used[name] && rapid.IntRange(0, 2).Draw(t, "othermark") == 0 {
+					mv := sc.Vals[name].Mark(otherMark)
+					ctx1.Variables[name] = mv
+					ctx2.Variables[name] = mv
+					c.Class("other_mark_present")
+				}
+			}
 			c.Set("secret", fmt.Sprintf("%s placement=%d content1=%#v content2=%#v", secret, placement, ctx1.Variables[secret], ctx2.Variables[secret]))
 			c.Set("scope", scopeDump(sc))
 			c.Class(fmt.Sprintf("placement_%d", placement))
